@@ -426,3 +426,16 @@ func (r *Registry) FieldIndex(so Sort, name string) int {
 	}
 	return -1
 }
+
+// under is Underlying(), except that a type parameter with a core type (e.g.
+// M ~map[K]V, S ~[]E) is treated as that core type.
+func under(t types.Type) types.Type {
+	t = types.Unalias(t)
+	if tp, ok := t.(*types.TypeParam); ok {
+		if c := coreOf(tp); c != nil {
+			return c.Underlying()
+		}
+		return tp.Underlying()
+	}
+	return t.Underlying()
+}
